@@ -1,9 +1,131 @@
-import EpModel.Model.Ipv6Exts
-import EpModel.Model.Ipv4Exts
-import EpModel.Spec.Rfc8200Order
-namespace EpModel.C12
-open EpModel EpModel.Ext
+/-
+  Property C12 — extension-header chain bookkeeping is self-consistent.
 
-theorem placeholder : True := trivial
+  Model: EpModel/Model/Ipv6Exts.lean, Ipv4Exts.lean (the five walkers of `Ipv6Extensions` /
+  `Ipv4Extensions`, each following its Rust function); Spec: EpModel/Spec/Rfc8200Order.lean
+  (declarative walk, RFC 8200 order); helper lemmas: EpModel/Lemmas/Ext.lean.
+
+  The presence pattern of a struct is finite, the `next_header` values, payloads and fields are
+  universally quantified in every theorem below.
+-/
+import EpModel.Lemmas.Ext
+namespace EpModel.C12
+open EpModel EpModel.Ext EpModel.Spec.Ext
+
+/-! ## Ipv6Extensions -/
+
+/-- `write` and `next_header` agree on EVERY struct (consistent or not) and every first header:
+    `write` returns exactly the verdict of `next_header` (same error value), in particular it
+    succeeds exactly when the walk succeeds. -/
+theorem write_iff_walk (e : Exts) (first : Nat) :
+    (e.write first).2 = (e.nextHeader first).map (fun _ => ()) ∧
+    ((e.write first).2.isOk = (e.nextHeader first).isOk) :=
+  ⟨write_snd_eq e first, write_isOk_eq e first⟩
+
+/-- no `unwrap()` of the two walkers can fail: neither `next_header` nor `write` panics, for any
+    struct and any first header (the no-panic half of "reported as errors, never by panicking"). -/
+theorem walkers_never_panic (e : Exts) (first : Nat) :
+    e.nextHeader first ≠ .error .panic ∧ (e.write first).2 ≠ .error .panic := by
+  have h := nextHeader_no_panic e first
+  refine ⟨h, ?_⟩
+  rw [write_snd_eq]
+  cases hh : e.nextHeader first with
+  | ok n => simp [Except.map]
+  | error f => simp [Except.map]; intro hf; exact h (by rw [hh, hf])
+
+/-- a successful `write` emits exactly `header_len()` bytes (type invariants of the stored headers
+    assumed: payload length 6 + 8k ≤ 2046, ICV length 4k ≤ 1016). -/
+theorem write_len (e : Exts) (hwf : e.WF) (first : Nat) (out : Bytes)
+    (h : e.write first = (out, .ok ())) : out.length = e.headerLen :=
+  write_len' e hwf first out h
+
+/-- Linking with `set_next_headers(n)` and walking from the returned first number gives `n`,
+    `write` succeeds and emits the present headers in the RFC 8200 order, and that chain is a
+    declarative walk (Spec) from the returned first number to `n`.
+    Holds for every `n` (in particular for every `n` that is not an extension header number). -/
+theorem link_then_walk (e e' : Exts) (n first' : Nat) (h : e.setNextHeaders n = (e', first')) :
+    e'.nextHeader first' = .ok n ∧
+    e'.write first' = (serialise e'.rfcChain, .ok ()) ∧
+    Walk first' e'.rfcChain n ∧ InRfcOrder e'.rfcChain :=
+  ⟨link_walk_all e e' n first' h, (link_write_order e e' n first' h).1, (link_write_order e e' n first' h).2,
+   rfcChain_inOrder e'⟩
+
+/-- the statement in the shape of the property text. -/
+theorem link_then_walk_non_ext (e : Exts) (n : Nat) (_hn : isIpv6ExtHeaderValue n = false) :
+    (e.setNextHeaders n).1.nextHeader (e.setNextHeaders n).2 = .ok n :=
+  link_walk_all e _ n _ rfl
+
+/-! ## Ipv4Extensions (single authentication header) -/
+
+theorem v4_write_iff_walk (e : Exts4) (first : Nat) :
+    (e.write first).2 = (e.nextHeader first).map (fun _ => ()) := by
+  rcases e with ⟨_ | a⟩ <;> simp [Exts4.write, Exts4.nextHeader, Except.map]
+  split <;> rename_i h
+  · simp [h]
+  · have : ¬ first = 51 := fun h' => h h'.symm
+    simp [this]
+
+theorem v4_walkers_never_panic (e : Exts4) (first : Nat) :
+    e.nextHeader first ≠ .error .panic ∧ (e.write first).2 ≠ .error .panic := by
+  rcases e with ⟨_ | a⟩ <;> simp [Exts4.write, Exts4.nextHeader] <;> constructor <;> split <;> simp
+
+theorem v4_write_len (e : Exts4) (hwf : e.WF) (first : Nat) (out : Bytes)
+    (h : e.write first = (out, .ok ())) : out.length = e.headerLen := by
+  rcases e with ⟨_ | a⟩ <;> simp [Exts4.write, Exts4.headerLen] at *
+  · simp [← h]
+  · split at h <;> simp at h
+    rw [← h]; exact Auth.toBytes_length a hwf
+
+theorem v4_link_then_walk (e e' : Exts4) (n first' : Nat) (h : e.setNextHeaders n = (e', first')) :
+    e'.nextHeader first' = .ok n ∧
+    e'.write first' = ((match e'.auth with | some a => a.toBytes | none => []), .ok ()) := by
+  rcases e with ⟨_ | a⟩ <;> simp [Exts4.setNextHeaders] at h <;> obtain ⟨rfl, rfl⟩ := h <;>
+    simp [Exts4.nextHeader, Exts4.write]
+
+/-! ## ether type of the IP version -/
+
+/-- version of an IP header set. -/
+def version : IpHdrs → Nat
+  | .ipv4 _ _ => 4
+  | .ipv6 _ _ => 6
+
+/-- `IpHeaders::set_next_headers` and `NetHeaders::try_set_next_headers` report the ether type of
+    the header's IP version (0x0800 / 0x86DD), store the first number of the chain in the IP
+    header, and keep the version. -/
+theorem ether_type_of_version (h : IpHdrs) (n : Nat) :
+    some (h.setNextHeaders n).2 = etherTypeOfVersion (version h) ∧
+    version (h.setNextHeaders n).1 = version h ∧
+    (NetHdrs.ip h).trySetNextHeaders n = .ok (.ip (h.setNextHeaders n).1, (h.setNextHeaders n).2) := by
+  cases h <;> simp [IpHdrs.setNextHeaders, NetHdrs.trySetNextHeaders, version, etherTypeOfVersion]
+
+/-- the chain stored by `IpHeaders::set_next_headers` walks to `n` (`IpHeaders::next_header`). -/
+theorem ip_link_then_walk (h : IpHdrs) (n : Nat) : (h.setNextHeaders n).1.nextHeader = .ok n := by
+  cases h with
+  | ipv4 p x =>
+    simp only [IpHdrs.setNextHeaders]
+    generalize hx : x.setNextHeaders n = r
+    obtain ⟨x', f'⟩ := r
+    have := (v4_link_then_walk x x' n f' hx).1
+    simp [IpHdrs.nextHeader, this]
+  | ipv6 p x =>
+    simp only [IpHdrs.setNextHeaders]
+    generalize hx : x.setNextHeaders n = r
+    obtain ⟨x', f'⟩ := r
+    have := link_walk_all x x' n f' hx
+    simp [IpHdrs.nextHeader, this]
+
+/-! ## non-vacuity -/
+
+/-- a struct with all six headers satisfying the type invariants. -/
+def sample : Exts :=
+  { hopByHopOptions := some ⟨60, [1, 2, 3, 4, 5, 6]⟩
+    destinationOptions := some ⟨43, [0, 0, 0, 0, 0, 0, 0, 0, 0, 0, 0, 0, 0, 9]⟩
+    routing := some ⟨⟨44, [7, 7, 7, 7, 7, 7]⟩, some ⟨17, [8, 8, 8, 8, 8, 8]⟩⟩
+    fragment := some ⟨51, 5, true, 99⟩
+    auth := some ⟨60, 1, 2, [0xaa, 0xbb, 0xcc, 0xdd]⟩ }
+
+example : sample.WF := by decide
+example : isIpv6ExtHeaderValue 17 = false := by decide
+example : (sample.setNextHeaders 17).2 = 0 := by decide
 
 end EpModel.C12
